@@ -126,7 +126,7 @@ func c19Run(line string) string {
 		return "bad-op"
 	}
 	kv := c19KV(hdr)
-	out := vhWithTimeout(5000, func() string {
+	out := vhWithTimeout(30000, func() string {
 		switch kv["w"] {
 		case "32":
 			return c19RunVC[uint32](kv, body)
